@@ -31,13 +31,14 @@ INFO = {
     'level': 'exploration',
     'rule': ('plans = <=8 track_user/untrack_user calls over 3 flags on 1..2 users, at plan times or on triggers '
              '(AddUser/RemoveUser arrival at the server, tracking-state event on the bus, client-side CLOSING of '
-             'the server connection) + k=0..4 loop iterations (+ optional delay around the retry instants), as own '
-             'task or inline in the observing callback; 50 % contain "untrack(last flag) -> track" with the track on '
-             'a trigger; server behaviour per attempt exists 60 / not-exists 15 / silent 25; server loss '
-             '(FIN / RST from the server / reset of both ends) in 20 % at a call or attempt; non-trivial = a call '
-             'was issued on a trigger or while an attempt was in flight, or a retry was seen, or the loss fired; '
-             'distinct = signature over the per-user merged sequence of (call op, flag, trigger kind, k) and '
-             '(frame kind, server behaviour) plus the loss position'),
+             'the server connection, another call) + k=0..4 loop iterations (+ optional delay to reach the instants '
+             'an attempt is given up / retried), as own task or inline in the observing callback; 50 % contain '
+             '"untrack(last flag) -> track" with the track on a trigger; server behaviour per attempt exists 60 / '
+             'not-exists 15 / silent 25; server loss (FIN / RST from the server / reset of both ends) in 20 % at a '
+             'call, attempt or state event, half of those with a call 30 s after the loss; non-trivial = a call was '
+             'issued on a trigger or while an attempt was in flight, or a retry was seen, or the loss fired; distinct '
+             '= signature over the per-user merged sequence of (call op, flag, trigger kind, k, inline) and (frame '
+             'kind, server behaviour) plus the loss position'),
     'real': common.REAL,
     'stub': common.STUB,
     'assumptions': [
@@ -290,9 +291,10 @@ def corpus(tier):
         out.append(_plan([_c('u1', T, R, 0.0), _c('u1', T, F, 30.0), _c('u1', U, F, 31.0), _c('u1', U, R, 31.0)],
                          loss={'how': how, 'at': 5.0}))
         for k in PATTERN_KS:
-            out.append(_plan([_c('u1', T, R, 0.0), _c('u1', U, R, on={'ev': 'closing', 'k': k}), _c('u1', T, F, on={'ev': 'closing', 'k': k})],
+            closing = {'ev': 'closing', 'k': k}
+            out.append(_plan([_c('u1', T, R, 0.0), _c('u1', U, R, on=closing), _c('u1', T, F, on=closing)],
                              {'u1': ['silent']}, loss={'how': how, 'at': 15.0}))
-            out.append(_plan([_c('u1', T, R, 0.0), _c('u2', T, F, on={'ev': 'closing', 'k': k})], users=USERS,
+            out.append(_plan([_c('u1', T, R, 0.0), _c('u2', T, F, on=closing)], users=USERS,
                              loss={'how': how, 'at': 5.0}))
             out.append(_plan([_c('u1', T, R, 0.0), _c('u1', U, R, 15.0)], {'u1': ['silent']},
                              loss={'how': how, 'on': {'ev': 'call', 'id': 1, 'k': k}}))
@@ -329,8 +331,8 @@ def simplify(plan):
         p = copy.deepcopy(plan)
         p['net'] = dict(SIMPLE_NET)
         yield p
-    if len(plan.get('users', USERS)) > 1:
-        for u in plan['users']:
+    if len(plan.get('users') or USERS) > 1:
+        for u in (plan.get('users') or USERS):
             p = copy.deepcopy(plan)
             p['users'] = [u]
             p['calls'] = [c for c in p['calls'] if c['user'] == u]
@@ -370,14 +372,23 @@ def simplify(plan):
 
 
 def enumerated_axes(tier):
+    ks = len(PATTERN_KS)
     return {
-        'pattern_plus_iter': {'size': len(PATTERN_KS), 'exhaustive': True,
-                              'what': 'k loop iterations between the UNTRACKED event / RemoveUser arrival and the '
-                                      'track call of "untrack(last flag) -> track" (own task and inline), 5 worker '
-                                      'pre-states'},
-        'closing_plus_iter': {'size': len(PATTERN_KS), 'exhaustive': True,
-                              'what': 'k loop iterations between the client-side CLOSING of the server connection '
-                                      'and calls issued in that instant, per loss kind'},
+        'pattern_plus_iter': {'size': ks * 2, 'exhaustive': True,
+                              'what': 'k = 0..4 loop iterations between the UNTRACKED event / RemoveUser arrival and '
+                                      'the track call of "untrack(last flag) -> track", as own task and inline, for 5 '
+                                      'worker pre-states (plain, two reasons, retry pending, attempt in flight, '
+                                      'unknown user)'},
+        'closing_plus_iter': {'size': ks * len(LOSS_HOW), 'exhaustive': True,
+                              'what': 'k = 0..4 loop iterations between the client-side CLOSING of the server '
+                                      'connection and calls issued in that instant, per loss kind'},
+        'retry_instant': {'size': 3 * 4, 'exhaustive': True,
+                          'what': 'untrack / untrack+track issued 1 ms before, in (iteration 0..3 of) and 1 ms after '
+                                  'the instant a retry is due'},
+        'link_reset_at_send': {'size': 7, 'exhaustive': True,
+                               'what': 'reset of both ends k = 0..6 iterations around a frame the worker sends (first '
+                                       'track, untrack, retry) and around the instant an unanswered attempt is given '
+                                       'up with calls queued behind it'},
     }
 
 
